@@ -545,7 +545,9 @@ Proof. repeat split. Qed.
    environment: the event PvStepDown (a leader that finds no active quorum on a tick becomes a
    follower of its term) and the non-delivery of a vote request (leader lease); the model does
    not say WHEN they happen, so the theorems below hold for every CheckQuorum run, while
-   CheckQuorum's liveness is not covered. *)
+   CheckQuorum's liveness is not covered.  Leadership transfer likewise: MsgTimeoutNow (PT) and the
+   forwarded MsgTransferLeader (PL) are messages of the model, a leader may send PT at any time, a
+   follower that receives it campaigns for real at once. *)
 Theorem C15_prevote_transparent : forall c0 c1 F, In (c0, c1) F -> forall x, pxreachable c0 c1 x ->
   exists s, mreachable F s /\ (forall y, nodes s y = fst (px_nodes x y)) /\ msgs s = base_of (px_msgs x).
 Proof.
@@ -596,4 +598,11 @@ Example C15_ex_checkquorum_stepdown :
   let l := fst (exec_pv [1] [] 1 PvCampaign (init_node, false)) in
   let f := fst (exec_pv [1] [] 1 PvStepDown l) in
   n_role (fst l) = Leader /\ n_role (fst f) = Follower /\ n_term (fst f) = n_term (fst l) /\ n_vote (fst f) = n_vote (fst l) /\ n_log (fst f) = n_log (fst l) /\ n_commit (fst f) = n_commit (fst l).
+Proof. vm_compute. repeat split. Qed.
+
+(* non-vacuity of the leadership-transfer messages: a follower that receives MsgTimeoutNow of a
+   higher term becomes a candidate of the term after it (no pre-vote) *)
+Example C15_ex_timeout_now :
+  let f := fst (exec_pv [1; 2; 3] [] 2 (PvRecv (PT 1 2 3)) (init_node, false)) in
+  n_role (fst f) = Candidate /\ n_term (fst f) = 4 /\ n_vote (fst f) = Some 2 /\ snd f = false.
 Proof. vm_compute. repeat split. Qed.
